@@ -391,6 +391,39 @@ def bind_args(call: ast.Call, fn: Func) -> dict[str, ast.expr]:
     return out
 
 
+def positional(call: ast.Call, fn: Func) -> list[ast.expr | None]:
+    """The arguments of a call in the callee's parameter order, whether they were passed by position or by keyword."""
+    b = bind_args(call, fn)
+    return [b.get(p.arg) for p in fn.value_params]
+
+
+def inline_simple_call(R: Any, call: ast.Call, caller: Func) -> ast.expr | None:
+    """A call to a repo function whose body is a single `return <expr>`: that expression with the parameters replaced by the
+    arguments (so that a computation moved into a small helper is still seen at its use).  None when the callee is anything else."""
+    import copy
+
+    tg, how = R.callees(call, caller, count=False)
+    if how != "resolved" or len(tg) != 1:
+        return None
+    f = tg[0]
+    body = [s for s in f.body if not (isinstance(s, ast.Expr) and isinstance(s.value, ast.Constant))]
+    if len(body) != 1 or not isinstance(body[0], ast.Return) or body[0].value is None:
+        return None
+    b = bind_args(call, f)
+    if any(p.arg not in b for p in f.value_params):
+        return None
+
+    class Sub(ast.NodeTransformer):
+        def visit_Name(self, node: ast.Name) -> ast.AST:  # noqa: N802
+            if node.id in b:
+                return copy.deepcopy(b[node.id])
+            return node
+
+    out = Sub().visit(copy.deepcopy(body[0].value))
+    ast.fix_missing_locations(out)
+    return out
+
+
 # ------------------------------------------------------------------------------------------- parameter influence
 
 
@@ -522,8 +555,14 @@ def inline_locals(fn_node: ast.AST, expr: ast.expr, depth: int = 4) -> ast.expr:
         elif isinstance(n, ast.Assign):
             for t in n.targets:
                 for x in ast.walk(t):
-                    if isinstance(x, ast.Name):
+                    if isinstance(x, ast.Name) and isinstance(x.ctx, ast.Store):
                         bad.add(x.id)
+                # an object that is mutated through the name (x.f = .. / x[i] = ..) is not a temporary
+                root = t
+                while isinstance(root, (ast.Attribute, ast.Subscript)):
+                    root = root.value
+                if root is not t and isinstance(root, ast.Name):
+                    bad.add(root.id)
     single = {k: v[0] for k, v in defs.items() if len(v) == 1 and k not in bad}
 
     class Sub(ast.NodeTransformer):
